@@ -9,7 +9,8 @@ RULE = ("random histories (quick: length <= 12, thorough: <= 40) of insertEntry 
         "each step is compared on its own: the model and the oracle are applied to the implementation's state before the "
         "step. Inserted entries are drawn to be disjoint, touching, overlapping one or several entries, containing, "
         "contained, or outside the current span; 3 collision modes x {silence, warning}; deletes of present and absent "
-        "entries. non-trivial = an insert that collides or a delete of a present entry")
+        "entries. Point tiers with several points at one time are generated on purpose (start tiers and mid-history, built "
+        "through the constructor) and inserts are aimed at such times. non-trivial = an insert that collides or a delete of a present entry")
 TRUSTED = ["oracle: sorted-list model of the collision policy in Python (harness/props/C11.py:oracle)"]
 ASSUMPTIONS = ["well-formed start tiers; inserted intervals have start < end; distinct boundary times differ by more than 1e-9 relative"]
 MODES = ["error", "replace", "merge"]
@@ -28,7 +29,8 @@ def wants_x(c):
 def colliding(t, entry):
     if t["k"] == "I":
         return [e for e in t["es"] if max(e[0], entry[0]) < min(e[1], entry[1])]
-    return [e for e in t["es"] if e[0] == entry[0]][:1]
+    # EVERY point at that time collides (a point tier can hold several; finding A24: the code used to stop at the first)
+    return [e for e in t["es"] if e[0] == entry[0]]
 
 
 def oracle(c, r):
@@ -73,7 +75,7 @@ def oracle(c, r):
     if r[0] == "err":
         return Failure(dict(sig, clause="no-error", exc=r[1]), f"insertEntry raised {r[1]}")
     res = r[1]
-    rest = [e for e in t["es"] if e not in col]
+    rest = [e for e in t["es"] if e not in col]     # 'replace' removes ALL colliding entries
     if not col or c["mode"] == "replace":
         want = [sorted(rest + [entry])]
     else:
@@ -83,7 +85,9 @@ def oracle(c, r):
             import props.C10 as C10
             want = [sorted(rest + [[lo, hi, lab]]) for lab in C10.label_orders(members)]
         else:
-            want = [sorted(rest + [[entry[0], col[0][1] + "-" + entry[1]]])]
+            # 'merge': ONE point whose label joins the labels of ALL colliding points (list order = time/label order), then
+            # the new label
+            want = [sorted(rest + [[entry[0], "-".join([e[1] for e in col] + [entry[1]])]])]
     if res["es"] not in want:
         return Failure(dict(sig, clause="policy", collided=bool(col)), f"entries {res['es']} expected {want[0]}")
     lo = min(t["lo"], entry[0])
@@ -116,6 +120,11 @@ def gen_entry(rnd, t, domain):
     pool = T.boundary_pool(t, rnd, domain, hi=12.0) + [t["hi"] + 1.0, t["hi"] + 2.5]
     lab = rnd.choice(["n", "m", " p ", "", "a-b"])
     if t["k"] == "P":
+        dups = T.dup_times(t)
+        if dups and rnd.random() < 0.5:
+            # on purpose: at a time that already carries two or more points, under another (sometimes an existing) label
+            here = [e[1] for e in t["es"] if e[0] == dups[0]]
+            return [rnd.choice(dups), rnd.choice([lab, lab, " q ", rnd.choice(here)])]
         return [rnd.choice(pool), lab]
     for _ in range(20):
         a, b = rnd.choice(pool), rnd.choice(pool)
@@ -130,8 +139,14 @@ def histories(rnd, n, maxlen):
     for h in range(n):
         domain = rnd.choice(["dec", "dec", "grid64"])
         t = T.gen_itier(rnd, domain, nmax=4) if rnd.random() < 0.65 else T.gen_ptier(rnd, domain, nmax=4)
+        if t["k"] == "P" and rnd.random() < 0.4:
+            t = T.with_dup_times(rnd, t)      # several points at one time (built through the constructor by tierops.impl)
         k = "i" if t["k"] == "I" else "p"
         for step in range(rnd.randint(1, maxlen)):
+            if t["k"] == "P" and t["es"] and not T.dup_times(t) and rnd.random() < 0.08:
+                # re-create coinciding times in the middle of a history: the same tier rebuilt by the constructor with a
+                # second point at one of its times (insertEntry itself never creates one)
+                t = T.with_dup_times(rnd, t)
             if rnd.random() < 0.75 or not t["es"]:
                 c = {"op": k + "insert", "tier": t, "entry": gen_entry(rnd, t, domain), "mode": rnd.choice(MODES),
                      "report": rnd.choice(["silence", "warning"])}
@@ -175,6 +190,15 @@ def corpus():
     tc3 = {"k": "I", "name": "I", "es": [[1.0, 2.0, "x"], [2.0, 2.000000000000001, "x"], [2.000000000000001, 2.0000000000000018, "x"]], "lo": 0.0, "hi": 10.0}
     yield {"op": "idelete", "tier": tc3, "entry": [2.000000000000001, 2.0000000000000018, "x"], "grid": False}
     yield {"op": "iinsert", "tier": tc3, "entry": [2.0000000000000013, 3.0, "y"], "mode": "replace", "grid": False}
+    # A24 (fixed): several points at the insertion time — 'replace'/'merge' handled only the first of them
+    td = {"k": "P", "name": "P", "es": [[10.0, "a"], [40.0, "b"], [40.0, "c"], [70.0, "d"]], "lo": 0.0, "hi": 100.0}
+    for mode in MODES:
+        yield {"op": "pinsert", "tier": td, "entry": [40.0, "n"], "mode": mode, "grid": True}
+        yield {"op": "pinsert", "tier": td, "entry": [40.0, " c "], "mode": mode, "grid": True}
+    td3 = {"k": "P", "name": "P", "es": [[40.0, "b"], [40.0, "b"], [40.0, "b-a"]], "lo": 0.0, "hi": 100.0}
+    for mode in ("replace", "merge"):
+        yield {"op": "pinsert", "tier": td3, "entry": [40.0, "z"], "mode": mode, "grid": True}
+    yield {"op": "pdelete", "tier": td, "entry": [40.0, "c"], "grid": True}
 
 
 def gen(rnd, tier):
